@@ -326,7 +326,8 @@ class FrameField2DVertices(_BaseFrameField2DVertices):
         else: # No border -> eigensolve
             self.log("No border detected")
             self.log("Initial solve of linear system using an eigensolver")
-            self.var = inverse_power_method(lap,A)
+            self.var = inverse_power_method(lap, B=A) # the second positional argument is the shift m, not the mass matrix
+            self.var /= np.abs(self.var).max() # B-normalised eigenvector: its magnitude is homogeneous to 1/length
             if self.n_smooth>0:
                 self.log(f"Solve linear system {self.n_smooth} times with diffusion")
                 alpha = self.smooth_attach_weight or self._compute_attach_weight(A) # Compute attach weight as smallest eigenvalue of the laplacian
